@@ -104,7 +104,8 @@ class Compose(Machine):
                        "ladder_affine_family", "chain_fallback", "inplace_accepted",
                        "inplace_rejected", "alignment_operand", "alignment_inplace_target", "self_composition",
                        "inplace_on_result_then_operands_probed", "decompose_recompose", "pwa_in_domain_law",
-                       "chain_inplace", "from_vector_inplace", "integer_dtype_parameters")
+                       "chain_inplace", "from_vector_inplace", "integer_dtype_parameters",
+                       "projective_matrix_with_zero_corner")
 
     @classmethod
     def swarm(cls, rng, tier):
@@ -202,8 +203,15 @@ class Compose(Machine):
             H = np.eye(d + 1, dtype=np.int64)
             H[:d, :d] = L
             H[:d, d] = g.randint(-4, 5, size=d)
+            if kind == "IntHomogeneous" and g.rand() < 0.6:
+                # integer projective row: products with integer translations hit a corner entry of exactly 0
+                H[d, :d] = g.randint(-1, 2, size=d)
+                H[d, d] = int(g.randint(0, 2))
             if abs(np.linalg.det(H.astype(float))) < 0.5:
-                H[:d, :d] = np.eye(d, dtype=np.int64) * 2
+                H[d, :d] = 0
+                H[d, d] = 1
+                if abs(np.linalg.det(H.astype(float))) < 0.5:
+                    H[:d, :d] = np.eye(d, dtype=np.int64) * 2
             cls_ = {"IntHomogeneous": Homogeneous, "IntAffine": Affine, "IntSimilarity": Similarity}[kind]
             self.ctx.probe("integer_dtype_parameters")
             return Entry(cls_(H.copy()), H=H.astype(float))
@@ -269,7 +277,11 @@ class Compose(Machine):
         if np.linalg.cond(H) > 1e5 or np.abs(H).max() > 1e6:
             return False
         w = np.hstack([self.X, np.ones((self.X.shape[0], 1))]) @ H[-1]
-        return np.abs(w).min() > 0.2 * abs(H[-1, -1]) and abs(H[-1, -1]) > 1e-3
+        # every probe point stays clear of the line/plane that the map sends to infinity; the corner entry itself
+        # may be anything, also exactly zero (a projective matrix is defined up to scale, not up to its corner)
+        if abs(H[-1, -1]) <= 1e-3 * np.abs(H[-1]).max():
+            self.ctx.probe("projective_matrix_with_zero_corner")
+        return np.abs(w).min() > 0.2 * np.abs(H[-1]).max()
 
     def _check_entry(self, e, why):
         """Law / operands-intact: the entry's map equals its model on the probe points."""
@@ -300,7 +312,12 @@ class Compose(Machine):
                     lambda: "%s (born %s): apply differs from the reference composition by %.3g (relative)\nmodel=%r" % (cls, e.born, err, [p if k == "H" else type(p).__name__ for k, p in prims][:4]))
         if e.H is not None and hasattr(e.obj, "h_matrix"):
             Hn = np.asarray(e.obj.h_matrix, dtype=float)
-            ok = Hn.shape == e.H.shape and np.abs(Hn / Hn[-1, -1] - e.H / e.H[-1, -1]).max() <= TOL * max(1.0, np.abs(e.H / e.H[-1, -1]).max())
+            ok = Hn.shape == e.H.shape and bool(np.all(np.isfinite(Hn)))
+            if ok:
+                k = int(np.argmax(np.abs(e.H)))       # compared up to scale, normalised at the model's largest entry
+                with np.errstate(all="ignore"):
+                    dev = np.abs(Hn / Hn.flat[k] - e.H / e.H.flat[k]).max()
+                ok = bool(dev <= TOL)
             ctx.require(ok, "law", why + "_h_matrix_" + cls,
                         lambda: "%s: h_matrix %r expected %r" % (cls, Hn.tolist(), e.H.tolist()))
 
